@@ -2,7 +2,11 @@
 package checks
 
 import (
+	"bytes"
+	"runtime/pprof"
 	"encoding/json"
+	"fmt"
+	"os"
 	"time"
 
 	"github.com/dtn7/dtn7-go/verif/ev"
@@ -54,4 +58,30 @@ func init() {
 	if ref16, ref32 := refCRC16("123456789"), refCRC32("123456789"); ref16 != 0x906E || ref32 != 0xE3069283 {
 		panic("reference CRC self-test failed")
 	}
+}
+
+// Bench runs the tasks of a file (one JSON per line) sequentially in-process and prints timings.
+func Bench(kind, file string) {
+	data, err := os.ReadFile(file)
+	if err != nil {
+		panic(err)
+	}
+	h := workers[kind]
+	if pf := os.Getenv("VERIF_PROF"); pf != "" {
+		f, _ := os.Create(pf)
+		_ = pprof.StartCPUProfile(f)
+		defer pprof.StopCPUProfile()
+	}
+	for _, line := range bytes.Split(bytes.TrimSpace(data), []byte("\n")) {
+		t0 := time.Now()
+		res := h(line)
+		fmt.Printf("%8.2fms %s\n", float64(time.Since(t0).Microseconds())/1000, string(res[:minInt(len(res), 160)]))
+	}
+}
+
+func minInt(a, b int) int {
+	if a < b {
+		return a
+	}
+	return b
 }
